@@ -687,7 +687,7 @@ func (s *v6sys) Check() []explore.Viol {
 	total := len(s.usableA) + len(s.usableP)
 	for k := 1; k <= total+2; k++ {
 		n := fmt.Sprintf("p%d", k)
-		s.addClient(n, []byte{0, 3, 0, 1, 2, 0, 0, 0, 1, byte(k)})
+		s.addClient(n, []byte{0, 3, 0, 1, 2, 0, 0, 1, byte(k >> 8), byte(k)}) // (two bytes: pools with >255 values)
 		s.msg(n, "SOL-both")
 		c := s.cl[n]
 		if c.advA.val == "" && c.advP.val == "" {
